@@ -481,7 +481,9 @@ retry_after_fb:
             if (bnv_cb(bn->get_version_ptr(), v_at_fb)) {
                 return status::WARN_ABORTED_BY_USER;
             }
-            key_tuple child_kt = right_to_left ? key_tuple::max() : key_tuple::min();
+            // right to left: start above every entry of the child layer (a link
+            // with an all-0xFF slice equals max() and must not be skipped)
+            key_tuple child_kt = right_to_left ? key_tuple::sup() : key_tuple::min();
             auto child_border_node_and_v =
                 find_border(child, child_kt.get_key_slice(), child_kt.get_key_length(), check_status);
             border_node* target_border = std::get<0>(child_border_node_and_v);
